@@ -1103,4 +1103,81 @@ def runSeq (s : State) : List Op → State × List Out
     let (s2, rs) := runSeq s1 os
     (s2, r :: rs)
 
+
+/-! ## C15R5 — values that travel between contexts: `bloc_ctx_store_variable` with a pointer the host does not own as a box
+
+`bloc_ctx_store_variable(ctx, sym, v)` does `storeVariable(id, std::move(*v))` whatever `v` points to. `Context::storeVariable`
+(context.cpp) decides by the LVALUE flag of the source value: a variable's own cell (every `MemorySlot::value` of every
+context — original or clone — carries the flag; this is what `bloc_ctx_load_variable` hands out) is COPIED
+(`e.clone()`; nothing at all when it is the target cell itself); any other value — an element of a table, an item of a
+tuple (`bloc_array_item` / `bloc_tuple_item` return the element's address), a caller-owned box — is MOVED: the source keeps
+its type and becomes null. The extension is a call of its own (`XOp.rstore`), outside `Op`, so that every theorem about
+`step` stands as it is; `stepX` / `runSeqX` run mixed sequences. -/
+
+/-- replace the value at `path` below `v` -/
+def Val.setPath : Val → List Nat → Val → Val
+  | _, [], new => new
+  | .tab t d es, i :: r, new => (match es[i]? with
+    | some w => .tab t d (es.set i (Val.setPath w r new))
+    | none => .tab t d es)
+  | .tup d is, i :: r, new => (match is[i]? with
+    | some w => .tup d (is.set i (Val.setPath w r new))
+    | none => .tup d is)
+  | v, _ :: _, _ => v
+
+/-- Is the cell a reference designates a variable's own cell (LVALUE: copied by a store) — else an element / item (moved)? -/
+def refIsVarCell (r : VRef) : Bool :=
+  r.path.isEmpty && (match r.root with | .slot _ _ => true | _ => false)
+
+/-- the source is an element / item below the target variable itself (not modelled) -/
+def aliasesTarget (r : VRef) (c id : Nat) : Bool :=
+  !refIsVarCell r && (match r.root with | .slot a i => a == c && i == id | _ => false)
+
+/-- The source cell after its payload was moved out: null of the same type. -/
+def moveOut (s : State) (r : VRef) (b : Val) : State :=
+  match r.root with
+  | .box i => (match s.vals[i]? with
+    | some (.box v) => killBoxItems (setVal s i (.box (Val.setPath v r.path (.null b.type)))) i
+    | _ => s)
+  | .slot a id => (match s.ctxs[a]? with
+    | some xa => (match xa.vals[id]? with
+      | some v => killCtxItems (setCtx s a { xa with vals := xa.vals.set id (Val.setPath v r.path (.null b.type)) }) a
+      | none => s)
+    | none => s)
+  | .snap _ => s
+
+/-- `bloc_ctx_store_variable(c, sym, v)` where host slot `v` holds a library-owned pointer from `bloc_ctx_load_variable`
+or an item pointer (into a context or into a caller-owned box). Evaluation results are excluded (`pre`): they may alias
+anything. Storing an item of the target variable into that same variable is not modelled. -/
+def opRstore (s : State) (c sh v : Nat) : State × Out :=
+  match symLive s sh c, liveSlot s v with
+  | some (x, id), some (.ref r) =>
+    if r.kind == .eval then (s, .pre) else
+    match readRef s r with
+    | some b =>
+      if aliasesTarget r c id then (s, .of .unmodelled) else
+      match storeInto x id b with
+      | .ok x' =>
+        let s1 := killCtxItems (setCtx s c x') c
+        (if refIsVarCell r then s1 else moveOut s1 r b, .of (.truth true))
+      | .error code => (setErr s code, { res := .truth false, fail := some code })
+    | none => (s, .pre)
+  | _, _ => (s, .pre)
+
+inductive XOp
+  | base (o : Op)
+  | rstore (c sh v : Nat)
+  deriving Inhabited
+
+def stepX (s : State) : XOp → State × Out
+  | .base o => step s o
+  | .rstore c sh v => opRstore s c sh v
+
+def runSeqX (s : State) : List XOp → State × List Out
+  | [] => (s, [])
+  | o :: os =>
+    let (s1, r) := stepX s o
+    let (s2, rs) := runSeqX s1 os
+    (s2, r :: rs)
+
 end BlocV.CApi
